@@ -53,6 +53,14 @@ impl System for Sys {
                     );
                 }
             }
+            let pw = st.vt.verif_state().pending_wrap;
+            if pw != (c.col == cols) {
+                out.violate(
+                    "C02",
+                    "wrap-pending-consistency",
+                    format!("internal wrap-pending flag is {} while the cursor column is {} of {}", pw, c.col, cols),
+                );
+            }
             if ap.reported {
                 if let Some(why) = changed_lines_broken(&ap.changed, rows) {
                     out.violate("C02", "changed-lines", why);
